@@ -40,6 +40,9 @@ CONFIG = {
                                                      ("oom/plain", "plain", "yaepsim", "oom", 0, 10000, 200000)]),
 }
 CHUNK = 250  # runs per worker process (workers are recycled: DESIGN.md §3.9)
+# C17: exhaustive enumeration of the failing request k over the scenario corpus (yaepsim --oomenum).
+# quick enumerates a seeded slice of the corpus, thorough all of it, in both flavours.
+ENUM = {"C17": dict(quick=[("enum/asan", "asan", 12), ("enum/plain", "plain", 40)], thorough=[("enum/asan", "asan", None), ("enum/plain", "plain", None)])}
 
 REAL_VS_STUB = {
     "real": ["src/yaep.c (all of it, incl. error recovery and translation)", "src/sgramm.y (bison-generated from the tree)",
@@ -165,6 +168,65 @@ def run_chunk(exe, mode, focus, a, b, want_shapes):
     return out
 
 
+def run_enum_chunk(exe, scen_from, scen_to):
+    """Enumerates scenarios [scen_from, scen_to); restarts after a crash behind the crashed (scenario, backend, op, k)."""
+    out = dict(ok=0, runs=0, stats={}, cands=[], crashes=[], hashes={}, shapes=[], samples=[], sceninfo=[])
+    cur = scen_from
+    resume = None
+    guard = 0
+    while cur < scen_to and guard < 200:
+        guard += 1
+        cmd = [exe, "--oomenum", "--from", str(cur), "--to", str(scen_to)]
+        if resume:
+            cmd += ["--resume"] + [str(x) for x in resume]
+        try:
+            p = subprocess.run(cmd, stdout=subprocess.PIPE, stderr=subprocess.PIPE, timeout=3000)
+            text = p.stdout.decode("utf-8", "replace")
+        except subprocess.TimeoutExpired as e:
+            text = (e.stdout or b"").decode("utf-8", "replace")
+        last = None
+        complete = False
+        recycle = False
+        for line in text.splitlines():
+            if line.startswith("ENUM "):
+                last = tuple(int(x) for x in line.split()[1:5])
+                out["runs"] += 1
+            elif line.startswith("V "):
+                f = dict(x.split("=", 1) for x in line[2:].split(" ") if "=" in x)
+                cls = "%s/%s/%s" % (f["prop"], f["kind"], unq(f["site"]))
+                emit = (int(f["scen"]), int(f["b"]), int(f["op"]), int(f["k"]))
+                out["cands"].append((emit, cls, unq(unq(f.get("detail", ""))), f.get("probe") == "1"))
+            elif line.startswith("SCENINFO "):
+                w = line.split()
+                out["sceninfo"].append(dict(scenario=int(w[1]), backend=int(w[2]), op=int(w[3]), requests=int(w[4].split("=")[1]),
+                                            enumerated=int(w[5].split("=")[1]), exhaustive=w[6].endswith("1"), name=w[7].split("=", 1)[1]))
+            elif line.startswith("STATS "):
+                merge_stats(out["stats"], json.loads(line[6:]))
+                complete = True
+            elif line.startswith("RECYCLE "):
+                recycle = True
+        if complete and not recycle:
+            break
+        if last is None:
+            out["crashes"].append(((cur, 1, -1, 0), "enumeration worker produced no output"))
+            cur += 1
+            resume = None
+            continue
+        if not complete:
+            out["crashes"].append((last, "worker died"))
+        # resume behind the run that ended the process
+        cur = last[0]
+        resume = (last[1], last[2] if last[2] >= 0 else 0, last[3] if last[2] >= 0 else 0)
+        if last[2] < 0:  # the fault-free pass of (scenario, backend) itself failed: skip this backend
+            if last[1] == 1:
+                resume = (2, 0, 0)
+            else:
+                cur = last[0] + 1
+                resume = None
+    out["ok"] = out["stats"].get("clean", 0)
+    return out
+
+
 def run_batch(batch, pool):
     futs = []
     a = batch.seed0
@@ -176,6 +238,20 @@ def run_batch(batch, pool):
         first = False
         a = b
     return futs
+
+
+def enum_summary(enum_batches, n_scen):
+    if not enum_batches:
+        return None
+    res = []
+    for eb in enum_batches:
+        info = eb.sceninfo
+        res.append(dict(label=eb.label, scenarios_in_corpus=n_scen, scenarios_enumerated=len(eb.scens),
+                        faulted_operations=len(info), requests_total=sum(i["requests"] for i in info),
+                        k_values_run=sum(i["enumerated"] for i in info), all_k_exhaustive=all(i["exhaustive"] for i in info),
+                        max_requests_in_one_operation=max([i["requests"] for i in info] or [0]),
+                        sample=[i for i in info[:3]]))
+    return res
 
 
 def sh(cmd, timeout=900):
@@ -221,8 +297,26 @@ def main():
         # seed blocks: pool seed = seed >> 8, so VERIF_SEED moves every batch to fresh pools
         seed0 = (seed * 64 + i * 7 + focus) << 24
         batches.append(Batch(label, flavour, binary, mode, focus, runs, seed0))
+    enum_batches = []
+    n_scen = 0
+    if prop in ENUM:
+        rc, out = sh([os.path.join(BUILD, "plain", "yaepsim"), "--oomenum", "--list"])
+        n_scen = int(out.split()[1]) if out.startswith("SCENARIOS") else 0
+        for (label, flavour, nslice) in ENUM[prop][tier]:
+            eb = Batch(label, flavour, "yaepsim", "oomenum", 0, 0, 0)
+            eb.sceninfo = []
+            if nslice is None:
+                eb.scens = list(range(n_scen))
+            else:  # seeded slice, spread over the corpus
+                import random
+                rnd = random.Random(seed * 1000 + len(enum_batches))
+                eb.scens = sorted(rnd.sample(range(n_scen), min(nslice, n_scen)))
+            enum_batches.append(eb)
     with cf.ThreadPoolExecutor(max_workers=NCPU) as pool:
         allf = []
+        for eb in enum_batches:  # long scenarios first in the queue
+            for sc in eb.scens:
+                allf.append((eb, pool.submit(run_enum_chunk, eb.exe, sc, sc + 1)))
         for b in batches:
             for f in run_batch(b, pool):
                 allf.append((b, f))
@@ -237,12 +331,16 @@ def main():
             b.shapes.update(r["shapes"])
             if len(b.samples) < 2:
                 b.samples += r["samples"]
+            if "sceninfo" in r:
+                b.sceninfo += r["sceninfo"]
     t_run = time.time() - t0 - t_build
+    batches_seeded = list(batches)
+    batches = batches + enum_batches
 
     # determinism audit in miniature: re-run a sample of seeds in fresh single-run processes
     audit_total = audit_bad = 0
     audit_bad_seeds = []
-    for b in batches:
+    for b in batches_seeded:
         seeds = sorted(b.hashes)[:: max(1, len(b.hashes) // (12 if tier == "quick" else 200))][: (12 if tier == "quick" else 200)]
         with cf.ThreadPoolExecutor(max_workers=NCPU) as pool:
             futs = {s: pool.submit(run_chunk, b.exe, b.mode, b.focus, s, s + 1, False) for s in seeds}
@@ -277,17 +375,24 @@ def main():
         seen_final = set()
         for (b, s, detail) in items[: (3 if cls != "CRASH" else 12)]:
             n_triaged += 1
-            plan_path = os.path.join(BUILD, "cand-%s-%s-%d.plan" % (prop, b.flavour, s))
-            rc, text = sh([b.exe, "--mode", b.mode, "--focus", str(b.focus), "--emit-plan", str(s)])
+            if isinstance(s, tuple):
+                plan_path = os.path.join(BUILD, "cand-%s-%s-enum-%d-%d-%d-%d.plan" % ((prop, b.flavour) + s))
+                rc, text = sh([b.exe, "--oomenum", "--emit"] + [str(x) for x in s])
+            else:
+                plan_path = os.path.join(BUILD, "cand-%s-%s-%d.plan" % (prop, b.flavour, s))
+                rc, text = sh([b.exe, "--mode", b.mode, "--focus", str(b.focus), "--emit-plan", str(s)])
             with open(plan_path, "w") as f:
                 f.write(text)
             c1, h1 = classify(b.exe, plan_path)
             c2, h2 = classify(b.exe, plan_path)
             set1, set2 = set(c for c, _ in c1), set(c for c, _ in c2)
             if set1 != set2 or h1 != h2:
-                machinery.append("seed %d (%s): replay is not reproducible: %s / %s" % (s, b.label, sorted(set1), sorted(set2)))
+                machinery.append("seed %s (%s): replay is not reproducible: %s / %s" % (s, b.label, sorted(set1), sorted(set2)))
                 continue
             mine = [(c, d) for c, d in c1 if c.split("/")[0] == prop]
+            if cls != "CRASH" and cls not in set1 and isinstance(s, tuple):
+                violations.append((cls, plan_path, "only reproduces inside the enumeration worker: " + detail))
+                continue
             if cls != "CRASH" and cls not in set1:
                 # the violation depends on earlier runs of the same worker process (history across runs)
                 chain_lo = b.seed0 + ((s - b.seed0) // CHUNK) * CHUNK
@@ -355,6 +460,8 @@ def main():
             "samples": samples,
             "batches": [dict(label=b.label, flavour=b.flavour, mode=b.mode, focus=b.focus, seed_from=b.seed0, seed_to=b.seed0 + b.runs,
                              runs=b.runs_done, clean=b.ok, worker_deaths=len(b.crashes)) for b in batches],
+            "enumeration": enum_summary(enum_batches, n_scen),
+            "exhaustive": False,
             "runs_per_hour": int(tot_runs / max(t_run, 1e-3) * 3600),
             "seeds_per_hour": int(tot_runs / max(t_run, 1e-3) * 3600),
             "simulated_time": "not applicable: yaep has no clock, timer or deadline; simulated steps are reported instead",
